@@ -42,12 +42,19 @@ def body(ctx):
     import c09, c08, c01
     c09.body(ctx)
     token_range(ctx, prog)
+    from ioreplay import Validator
+    c08.VAL = Validator(ctx, prog)
+    c08.server_close(ctx, io_executor(ctx, prog), prog, [])     # crossing connection closes: the server's Close arriving after the client's own is still acted on, nothing more is written
     c08.close_reports_the_cause(ctx, prog)     # Connection::close still reports the server's close when its own request failed because of it
     wv = []
     c01.write_loop(ctx, prog, wv)              # a close plus other output in one batch: a partial write keeps the bytes and the seal
     if wv:
         ctx.replay_timeout = 180
         ctx.report('outbound-stream', f"write loop: {str(wv[0])[:300]}", {'solver_counterexamples': [str(v)[:300] for v in wv[:4]]}, c01.NATIVE, inject_into='src/io_loop/mod.rs', profiles=('dev',), hang_is_violation=True, panic_is_violation=True)
+    iv = []
+    c01.write_interest(ctx, prog, iv)          # a close queued late in a batch (after the socket's own event flushed everything) is still written out
+    if iv:
+        ctx.report('write-interest-lost', f"poll loop: {str(iv[0])[:300]}", {'solver_counterexamples': [str(v)[:300] for v in iv[:4]]}, c01.NATIVE_D, inject_into='src/io_loop/mod.rs', profiles=('dev',), hang_is_violation=True, panic_is_violation=True)
     roles = {}
     for v in viol:
         roles.setdefault(v[0], v)
